@@ -1555,6 +1555,36 @@ def bound_template(st):
   return tdict([['c', oneof([unique_const(st, True), core], tag=_tag(st))]])
 
 
+def bound_grid():
+  """The bounded family of boundary bindings: (bound of a float field: zero of
+  either sign / type, +-1, 2) x (lower | upper bound) x (the range ends just
+  outside, outside, on, inside the bound) x (floatv directly in the field, as
+  a oneof candidate, as a manyof candidate of a list field)."""
+  out = []
+  n = 0
+  for b in (0.0, -0.0, 0, 1.0, -1.0, 2):
+    for d in (+1, -1):                      # +1: lower bound, -1: upper bound
+      for rel in ('just-outside', 'outside', 'on', 'inside'):
+        for form in ('floatv', 'oneof', 'manyof'):
+          n += 1
+          other = None if n % 2 else b + 2 * d
+          s = spec_num('float', b, other) if d > 0 else spec_num('float', other, b)
+          e = {'just-outside': math.nextafter(float(b), -math.inf * d),
+               'outside': b - 0.5 * d, 'on': float(b), 'inside': b + 0.25 * d}[rel]
+          far = b + 1.0 * d
+          ph = tfloat(min(e, far), max(e, far))
+          mid = [const(b + 0.5 * d), const(b + 0.75 * d)]
+          if form == 'floatv':
+            T = tdict([['f', ph]], {'f': s})
+          elif form == 'oneof':
+            T = tdict([['f', oneof([mid[0], ph])]], {'f': s})
+          else:
+            T = tdict([['l', choice(2, [mid[0], ph, mid[1]], n % 3 > 0, n % 4 > 1)]],
+                      {'l': spec_list(s, 0, None if n % 2 else 2)})
+          out.append(T)
+  return out
+
+
 # --------------------------------------------------------------------------
 # Evolvable placeholders that really mutate.
 # --------------------------------------------------------------------------
